@@ -308,6 +308,19 @@ def compare(it, op, a, b, node=None):
             return Not(r) if is_t(r) else (not r)
         return r
     sop = {"Lt": "<", "LtE": "<=", "Gt": ">", "GtE": ">="}[op]
+    if type(a) in (tuple, list) and type(a) is type(b) and any(is_t(x) for x in list(a) + list(b)):
+        # python-side sequences holding terms: lexicographic order, element by element
+        if sop in (">", ">="):
+            a, b, sop = b, a, {">": "<", ">=": "<="}[sop]
+        n = min(len(a), len(b))
+        cases, prefix = [], []
+        for k in range(n):
+            lt = compare(it, "Lt", a[k], b[k], node)
+            cases.append(And(*(prefix + [lift(lt)])))
+            prefix.append(lift(equal(it, a[k], b[k])))
+        if len(a) < len(b) or (sop == "<=" and len(a) == len(b)):
+            cases.append(And(*prefix) if prefix else B(True))
+        return Or(*cases) if cases else B(False)
     if is_t(a) or is_t(b):
         if is_num(a) and is_num(b):
             return smt.Cmp(sop, it.term(a), it.term(b))
